@@ -5,7 +5,7 @@ use crate::gen::{gen_data, label_universe, Gen, Profile};
 use crate::hist::{Ctx, HistMonitor};
 use crate::json::{Counters, J};
 use crate::model::Model;
-use crate::mon_gc::{C01, C03};
+use crate::mon_gc::C01;
 use crate::ops::{history_show, history_text, HexSpec, Op};
 use crate::rec::{digest, first_diff, Ret, Session, O_EDGES, O_INSPECT, O_KEYS, O_TEXT};
 use crate::rng::{mix, Rng};
@@ -189,22 +189,16 @@ pub fn run_c11_case(case: &MergeCase, c: &mut Counters, work: &std::path::Path) 
     if let Ret::Res(Err(e)) = &o.ret {
         return (Some(format!("merge of two trees returned Err: {e}")), false, s.ops);
     }
-    if let Some(e) = &o.adopt_error {
-        return (Some(format!("after merge: {e}")), false, s.ops);
+    // ---- facts about this very call
+    if o.keys_before.iter().any(|v| !o.keys_after.contains(v)) {
+        return (Some(format!("merge removed vertices: {:?} -> {:?}", o.keys_before, o.keys_after)), false, s.ops);
     }
-    // h unchanged (compare with a freshly built twin of h)
+    // the right graph is unchanged (compare with a freshly built twin of it)
     if let Some((hg, _)) = &o.merge_h {
         let mut h2 = new_graph(case.n, case.cap);
+        let mut u2 = 0u64;
         for hop in h {
-            match hop {
-                Op::Add(v) => h2.add(*v),
-                Op::Bind(a, b, l) => h2.bind(*a, *b, *l),
-                Op::Put(v, d) => h2.put(*v, &d.to_hex()),
-                Op::Data(v) => {
-                    let _ = h2.data(*v);
-                }
-                _ => {}
-            }
+            let _ = crate::rec::exec_raw(&mut h2, hop, work, &mut u2, &labels);
         }
         let (a, b) = (digest(hg.as_ref(), FULL, &labels), digest(h2.as_ref(), FULL, &labels));
         if a != b {
@@ -214,92 +208,119 @@ pub fn run_c11_case(case: &MergeCase, c: &mut Counters, work: &std::path::Path) 
             c.inc("c11.right-graph-internal-state-changed(latent)");
         }
     }
-    // vertex count: exactly one new vertex per h path that g lacked
-    let keys_after = s.g.keys();
-    if keys_after.len() != keys_g.len() + expect_new {
-        return (
-            Some(format!(
-                "merge created {} vertices, the right tree has {expect_new} paths the left graph lacked",
-                keys_after.len() as i64 - keys_g.len() as i64
-            )),
-            false,
-            s.ops,
-        );
-    }
-    for v in &keys_g {
-        if !keys_after.contains(v) {
-            return (Some(format!("merge removed ν{v}")), false, s.ops);
-        }
-    }
-    // everything g had is still there; only demanded edges and data were added (model == real on
-    // kids/kid/data marker of every vertex: the model adopted exactly the demanded additions)
-    let mut c03 = C03::default();
-    {
-        let mut ctx = Ctx { c: &mut scratch, rng: &mut rng, labels: labels.clone() };
-        if let Some(m) = c03.after(&mut s, &case.merge, &mut o, &mut ctx) {
-            return (Some(format!("structure after merge: {m}")), false, s.ops);
-        }
-        if let Some(m) = trace.after(&mut s, &case.merge, &mut o, &mut ctx) {
-            return (Some(m), false, s.ops);
-        }
-    }
-    if s.g.keys() != s.m.keys() {
-        return (Some(format!("after merge: vertices {:?}, expected {:?}", s.g.keys(), s.m.keys())), false, s.ops);
-    }
-    // old edges untouched (explicitly, from the pre-merge model)
-    for (v, x) in &g_before.verts {
-        for (l, t) in &x.edges {
-            if s.g.kid(*v, *l) != Some(*t) {
-                return (Some(format!("merge changed the existing edge ν{v}.{l}→ν{t} into {:?}", s.g.kid(*v, *l))), false, s.ops);
-            }
-        }
-    }
-    // every labelled path from right in h exists from left in g', injectively
-    {
-        let mut map: Vec<(usize, usize)> = vec![(*right, *left)];
-        let mut i = 0;
-        while i < map.len() {
-            let (hv, gv) = map[i];
-            i += 1;
-            for (l, t) in &hm.verts[&hv].edges {
-                match s.g.kid(gv, *l) {
-                    Some(gt) => map.push((*t, gt)),
-                    None => return (Some(format!("path lost: ν{gv} has no edge {l} after the merge")), false, s.ops),
-                }
-            }
-        }
-        let targets: BTreeSet<usize> = map.iter().map(|(_, g)| *g).collect();
-        if targets.len() != map.len() {
-            return (Some("two vertices of the right tree landed on the same vertex of the left graph".to_string()), false, s.ops);
-        }
-    }
-    // "as if the additions had been made by add/bind/put": make exactly those calls on the twin
+    // ---- the reference: the documented algorithm made of public calls on the twin
+    // ("descend along the existing kid, or next_id() + add() + bind(); put() the data"), so that
+    // "as if the additions had been made by add/bind/put" is decided between two real graphs and a
+    // defect of add/bind/put/next_id themselves cannot be blamed on merge
     {
         let t = &mut twin;
-        let prims = o.prims.clone();
+        let hm_ref = &hm;
         let r = crate::rec::guarded(|| {
-            for p in &prims {
-                match p {
-                    crate::model::Prim::NextId(_) => {
-                        let _ = t.next_id();
-                    }
-                    crate::model::Prim::Add(v) => t.add(*v),
-                    crate::model::Prim::Bind(a, b, l) => t.bind(*a, *b, *l),
-                    crate::model::Prim::Put(v, d) => t.put(*v, &sodg::Hex::from_vec(d.clone())),
+            fn rec(t: &mut Box<dyn crate::shim::Graph>, h: &Model, l: usize, r: usize) {
+                let hv = &h.verts[&r];
+                if let Some(d) = &hv.data {
+                    t.put(l, &sodg::Hex::from_vec(d.clone()));
+                }
+                for (a, to) in &hv.edges {
+                    let m = match t.kid(l, *a) {
+                        Some(x) => x,
+                        None => {
+                            let id = t.next_id();
+                            t.add(id);
+                            t.bind(l, id, *a);
+                            id
+                        }
+                    };
+                    rec(t, h, m, *to);
                 }
             }
+            rec(t, hm_ref, *left, *right);
         });
         if r.is_err() {
-            c.inc("c11.direct-calls-panicked(skipped)");
+            c.inc("c11.reference-calls-panicked(skipped)");
             return (None, false, s.ops);
         }
-        let (a, b) = (digest(s.g.as_ref(), O_KEYS | O_EDGES, &labels), digest(twin.as_ref(), O_KEYS | O_EDGES, &labels));
-        if a != b {
-            return (Some(format!("the merged graph differs from the one built by the same add/bind/put calls: {}", first_diff(&b, &a))), false, s.ops);
+    }
+    // ---- compare merged graph and reference up to a renaming of the vertices on the right tree's paths
+    // (merge is free to choose which fresh id goes where)
+    let mut m2t: std::collections::BTreeMap<usize, usize> = std::collections::BTreeMap::new();
+    let mut t2m: std::collections::BTreeMap<usize, usize> = std::collections::BTreeMap::new();
+    {
+        let mut todo = vec![(*right, *left, *left)];
+        while let Some((hv, gm, gt)) = todo.pop() {
+            if let Some(prev) = m2t.insert(gm, gt) {
+                if prev != gt {
+                    return (Some("two vertices of the right tree landed on the same vertex of the left graph".to_string()), false, s.ops);
+                }
+            }
+            if let Some(prev) = t2m.insert(gt, gm) {
+                if prev != gm {
+                    return (Some("two vertices of the right tree landed on the same vertex of the left graph".to_string()), false, s.ops);
+                }
+            }
+            for (l, to) in &hm.verts[&hv].edges {
+                let km = crate::rec::guarded(|| s.g.kid(gm, *l)).ok().flatten();
+                let kt = crate::rec::guarded(|| twin.kid(gt, *l)).ok().flatten();
+                match (km, kt) {
+                    (Some(a), Some(b)) => todo.push((*to, a, b)),
+                    (None, Some(_)) => return (Some(format!("path lost: ν{gm} has no edge {l} after the merge")), false, s.ops),
+                    _ => {
+                        c.inc("c11.reference-lacks-a-path(skipped)");
+                        return (None, false, s.ops);
+                    }
+                }
+            }
         }
     }
-    // GC continuation: random reads, then drain; judged by the trace rules (C01, facts only) and
-    // in lock-step against the twin built by direct calls (return values, alive set, edges)
+    let map = |v: usize| m2t.get(&v).copied().unwrap_or(v);
+    let same_now = |s: &Session, twin: &Box<dyn crate::shim::Graph>| -> Option<String> {
+        let mut km: Vec<usize> = s.g.keys().into_iter().map(map).collect();
+        km.sort_unstable();
+        if km != twin.keys() {
+            return Some(format!("vertices {:?}; built by the same add/bind/put calls: {:?}", s.g.keys(), twin.keys()));
+        }
+        let (dm, dt) = (crate::rec::real_data(s.g.as_ref()), crate::rec::real_data(twin.as_ref()));
+        for v in s.g.keys() {
+            let mut a: Vec<(String, usize)> = s.g.kids(v).iter().map(|(l, t)| (crate::ops::label_text(l), map(*t))).collect();
+            let mut b: Vec<(String, usize)> = twin.kids(map(v)).iter().map(|(l, t)| (crate::ops::label_text(l), *t)).collect();
+            a.sort();
+            b.sort();
+            if a != b {
+                return Some(format!("edges of ν{v}: {a:?}; built by the same add/bind/put calls: {b:?}"));
+            }
+            if dm.get(&v) != dt.get(&map(v)) {
+                return Some(format!(
+                    "data of ν{v}: {:?}; built by the same add/bind/put calls: {:?}",
+                    dm.get(&v).cloned().flatten().map(|d| crate::ops::hex(&d)),
+                    dt.get(&map(v)).cloned().flatten().map(|d| crate::ops::hex(&d))
+                ));
+            }
+        }
+        None
+    };
+    match crate::rec::guarded(|| same_now(&s, &twin)) {
+        Ok(Some(m)) => return (Some(format!("after merge: {m}")), false, s.ops),
+        Ok(None) => {}
+        Err(_) => {
+            c.inc("c11.query-panicked(skipped)");
+            return (None, false, s.ops);
+        }
+    }
+    // the model-based description of the result is only a counter now (a difference here with an
+    // agreeing reference means the defect is not merge's)
+    if o.adopt_error.is_some() || s.g.keys().len() != keys_g.len() + expect_new {
+        c.inc("c11.model-differs-but-reference-agrees");
+    }
+    {
+        let mut ctx = Ctx { c: &mut scratch, rng: &mut rng, labels: labels.clone() };
+        let _ = trace.after(&mut s, &case.merge, &mut o, &mut ctx);
+    }
+    if s.g.keys() != s.m.keys() || o.adopt_error.is_some() {
+        let snap = s.g.snapshot();
+        s.m.resync(&snap);
+    }
+    let _ = &g_before;
+    // ---- continuation of reads in lock-step (ids of the reference through the renaming)
     let mut died = false;
     let mut order: Vec<usize> = s.m.verts.iter().filter(|(_, x)| x.data.is_some()).map(|(v, _)| *v).collect();
     rng.shuffle(&mut order);
@@ -312,27 +333,19 @@ pub fn run_c11_case(case: &MergeCase, c: &mut Counters, work: &std::path::Path) 
     }
     reads.extend(order.iter().copied());
     for v in reads {
-        if !s.m.present(v) {
+        if !s.m.present(v) || !s.g.keys().contains(&v) {
             continue;
         }
         let op = Op::Data(v);
         let mut o = s.step(&op);
         c.inc("c11.continuation-reads");
-        if let Some(p) = &o.panic {
-            return (Some(format!("after the merge, data({v}) panicked: {p}")), false, s.ops);
-        }
-        if !o.model_removed.is_empty() {
-            died = true;
-        }
-        let mut ctx = Ctx { c: &mut scratch, rng: &mut rng, labels: labels.clone() };
-        if let Some(m) = trace.after(&mut s, &op, &mut o, &mut ctx) {
-            return (Some(format!("after the merge (C01 rules): {m}")), false, s.ops);
-        }
-        let tr = crate::rec::exec_raw(&mut twin, &op, work, &mut uniq, &labels);
-        match tr {
-            Err(p) => return (Some(format!("after the merge, data({v}) panics ({p}) only on the graph built by direct calls")), false, s.ops),
-            Ok(r) => {
-                if r != o.ret {
+        let tr = crate::rec::exec_raw(&mut twin, &Op::Data(map(v)), work, &mut uniq, &labels);
+        match (&o.panic, &tr) {
+            (Some(_), Err(_)) => return (None, false, s.ops),
+            (Some(p), Ok(_)) => return (Some(format!("after the merge, data({v}) panicked ({p}); on the graph built by the same add/bind/put calls it does not")), false, s.ops),
+            (None, Err(p)) => return (Some(format!("after the merge, data({v}) panics ({p}) only on the graph built by direct calls")), false, s.ops),
+            (None, Ok(r)) => {
+                if *r != o.ret {
                     return (
                         Some(format!("after the merge, data({v}) returned {:?}; on the graph built by the same add/bind/put calls it returns {:?}", o.ret, r)),
                         false,
@@ -341,24 +354,25 @@ pub fn run_c11_case(case: &MergeCase, c: &mut Counters, work: &std::path::Path) 
                 }
             }
         }
-        if s.g.keys() != twin.keys() {
-            return (
-                Some(format!(
-                    "after the merge, data({v}) left vertices {:?}; on the graph built by the same add/bind/put calls {:?} are left",
-                    s.g.keys(),
-                    twin.keys()
-                )),
-                false,
-                s.ops,
-            );
+        if o.keys_after.len() < o.keys_before.len() {
+            died = true;
+        }
+        {
+            let mut ctx = Ctx { c: &mut scratch, rng: &mut rng, labels: labels.clone() };
+            if trace.after(&mut s, &op, &mut o, &mut ctx).is_some() {
+                c.inc("c11.c01-rule-broken-in-continuation(judged-against-reference)");
+            }
+        }
+        match crate::rec::guarded(|| same_now(&s, &twin)) {
+            Ok(Some(m)) => return (Some(format!("after the merge and data({v}): {m}")), false, s.ops),
+            Ok(None) => {}
+            Err(_) => return (None, false, s.ops),
         }
         if s.g.keys() != s.m.keys() {
-            // both real graphs agree with each other but not with the model: not merge's doing
-            c.inc("c11.model-differs-but-direct-call-twin-agrees");
+            c.inc("c11.model-differs-but-reference-agrees");
             let snap = s.g.snapshot();
             s.m.resync(&snap);
         }
-        let _ = &mut c03;
     }
     let h_has_data_on_overlap = hm.verts.iter().any(|(_, x)| x.data.is_some());
     let nontrivial = overlap >= 1 && expect_new >= 1 && h_has_data_on_overlap && died;
